@@ -111,6 +111,9 @@ def Oper.isLogical : Oper → Bool
 def Oper.isBin (x : Oper) (p : Nat → Bool) : Bool := match x with | .un => false | .bin o => o.isStd p
 def Oper.isBetween (x : Oper) : Bool := x.isBin (fun i => i == 8 || i == 9)
 def Oper.isLike (x : Oper) : Bool := x.isBin (fun i => i == 2 || i == 3)
+/-- the operators whose right operand may be the nested `pattern ESCAPE character` pair: `LIKE`, `NOT LIKE` and Postgres'
+`ILIKE`, `NOT ILIKE` (`Oper::is_like() || Oper::is_ilike()` in `binary_expr`) -/
+def Oper.takesEscape (x : Oper) : Bool := x.isBin (fun i => i == 2 || i == 3 || i == 30 || i == 31)
 def Oper.isIn (x : Oper) : Bool := x.isBin (fun i => i == 6 || i == 7)
 def Oper.isIs (x : Oper) : Bool := x.isBin (fun i => i == 4 || i == 5)
 def Oper.isShift (x : Oper) : Bool := x.isBin (fun i => i == 23 || i == 24)
@@ -445,7 +448,7 @@ def rEx (d : Backend) : Ex → Pieces
       -- BETWEEN lo AND hi: the bounds are operands of BETWEEN
       binLeft d l o (rEx d l) ++ rBounds d outer r
     else
-      let dropR := greater d (shapeOf r) outer || (outer.isLike && isBinWith r (· == .std 26)) ||
+      let dropR := greater d (shapeOf r) outer || (outer.takesEscape && isBinWith r (· == .std 26)) ||
         (o == .std 25 && isCustom r)
       binLeft d l o (rEx d l) ++ wrap dropR (rEx d r)
   | .subq o q => rOptSubOp d o ++ [S "("] ++ rQuery d q ++ [S ")"]
